@@ -5,7 +5,7 @@ import z3
 from interp import *
 import models
 
-VERIF = os.environ.get('VERIF_DIR', '/verif')
+VERIF = os.environ.get('VERIF_DIR') or os.path.dirname(os.path.dirname(os.path.dirname(os.path.abspath(__file__))))
 REPO = os.environ.get('VERIF_REPO', '/repo')
 MOD = 'github.com/antonmedv/expr'
 PKGS = ['.', './ast', './checker', './compiler', './conf', './file', './optimizer', './parser', './parser/lexer', './vm', './docgen']
